@@ -44,6 +44,8 @@ type rig struct {
 	L    *peer.Listener // active library: the peer listens here
 	o    rigOpts
 	gen  int
+
+	listenSeen int // passive: ListenFunc calls consumed by earlier generations
 }
 
 func (o *rigOpts) defaults() {
@@ -139,6 +141,12 @@ func (r *rig) PeerConnect(d time.Duration) (*peer.Conn, error) {
 
 		return pc, nil
 	}
+	// each generation of a passive library is one ListenFunc call: wait for a listener that is newer
+	// than the one the previous generation used (an older one may still be refusing in its teardown)
+	if !waitFor(d, func() bool { return r.Trk.ListenCount() > r.listenSeen }) {
+		return nil, errors.New("peer: the passive library did not listen again")
+	}
+	seen := r.Trk.ListenCount()
 	addr, err := r.Trk.ListenAddr(d)
 	if err != nil {
 		return nil, err
@@ -149,6 +157,7 @@ func (r *rig) PeerConnect(d time.Duration) (*peer.Conn, error) {
 		pc, err := peer.Dial(addr, r.gen+1, time.Second)
 		if err == nil {
 			r.gen++
+			r.listenSeen = seen
 			return pc, nil
 		}
 		last = err
